@@ -288,7 +288,7 @@ def _spy_context(st):
     return st
 
 
-def sym_cacherace(budget, warm, targets=("m1", "m2"), window=None, shard=None):
+def sym_cacherace(budget, warm, targets=("m1", "m2"), window=None, shard=None, first_op=None):
     """Two REAL workers (threads under the deterministic scheduler) call get_array for two runs on ONE context.  Every
     access to the shared plugin cache (attribute read / replace, per-hash dict operation, iteration step) is a switch
     point; the canonical schedule runs one worker after the other, up to `budget` solver-chosen switches deviate."""
@@ -302,7 +302,7 @@ def sym_cacherace(budget, warm, targets=("m1", "m2"), window=None, shard=None):
     if warm:
         st.get_array("1", tg, processor="single_thread")
     _spy_context(st)
-    state = {"left": budget, "k": 0, "used": [], "last": None}
+    state = {"left": budget, "k": 0, "used": [], "last": None, "op": None}
 
     def pol(s, r):
         work = [t for t in r if t.tid != 0]
@@ -315,8 +315,10 @@ def sym_cacherace(budget, warm, targets=("m1", "m2"), window=None, shard=None):
             return canon
         if shard is not None and state["left"] == budget and k % shard[1] != shard[0]:
             return canon  # this configuration explores the schedules whose FIRST switch is at a point = shard[0] mod shard[1]
-        if window is not None and state["last"] is not None and k - state["last"] > window:
-            return canon
+        if first_op is not None and state["left"] == budget and state["op"] != first_op:
+            return canon  # the first switch only where a worker is about to perform this kind of access
+        if window is not None and state["left"] == 1 and budget > 1 and k - state["last"] > window:
+            return canon  # the LAST switch only shortly after the one before (bound)
         if bool(fresh_bool(f"sw{k}")):
             state["left"] -= 1
             state["last"] = k
@@ -365,7 +367,11 @@ def sym_cacherace(budget, warm, targets=("m1", "m2"), window=None, shard=None):
         except (KeyError, RuntimeError, ValueError, AttributeError, TypeError) as e:
             exc[r] = e
 
-    SpyDict.hook = lambda d, op: sched.pause()
+    def hook(d, op):
+        state["op"] = op
+        sched.pause()
+
+    SpyDict.hook = hook
     try:
         for r in runs:
             sched.start(sched.spawn(worker, name=f"run{r}", args=(r,)))
@@ -434,6 +440,7 @@ OBLIGATIONS = [
        max_paths=400000),
     Ob("cacherace", sym_cacherace, lambda tier: [dict(budget=1, warm=False), dict(budget=1, warm=True)]
        + [dict(budget=2, warm=False, targets="m1", shard=[i, 24]) for i in range(24)]
+       + [dict(budget=3, warm=False, targets="m1", first_op="cache-attr-write", window=8)]
        + ([dict(budget=2, warm=False, shard=[i, 48]) for i in range(48)] if tier == "thorough" else []),
        nat_cacherace, setup=_setup,
        witnesses=1, max_paths=400000,
